@@ -628,8 +628,11 @@ func (x *Exec) runStmt(ctx context.Context, w wire.DataWriter, params []wire.Par
 			}
 		case "bincopy":
 			if cr != nil {
-				x.binCopy(ctx, cr, st)
+				berr := x.binCopy(ctx, cr, st)
 				cr = nil
+				if berr != nil && S(op, "onerr") == "ret" {
+					return berr // the statement function passes the row reader's error on
+				}
 			}
 		case "gate":
 			if x.Sched != nil {
